@@ -33,6 +33,22 @@ func (fg *FnGen) stableRefs() []stableRef {
 
 func (fg *FnGen) havocCall(st *State, reach *Term) *State {
 	st2 := fg.havocAll(st)
+	fg.advanceClock() // the callee may have allocated objects that are now reachable through the heap
+	// stack-allocated locals (go/ssa: Alloc with Heap == false) do not escape: no callee can write them
+	for _, sc := range fg.stackCells {
+		if stt, ok := sc.ty.Underlying().(*types.Struct); ok {
+			for i := 0; i < stt.NumFields(); i++ {
+				if _, isStruct := stt.Field(i).Type().Underlying().(*types.Struct); isStruct {
+					continue
+				}
+				name, hs := fg.fieldVar(sc.ty, stt, i)
+				fg.assume(Eq(Select(fg.lookup(st2, name, hs), sc.ref), Select(fg.lookup(st, name, hs), sc.ref)))
+			}
+			continue
+		}
+		name, hs := fg.cellVar(sc.ty)
+		fg.assume(Eq(Select(fg.lookup(st2, name, hs), sc.ref), Select(fg.lookup(st, name, hs), sc.ref)))
+	}
 	for _, sr := range fg.stableRefs() {
 		stt, nt, _ := isStructPtr(sr.ty)
 		for i := 0; i < stt.NumFields(); i++ {
@@ -154,4 +170,23 @@ func (fg *FnGen) bumpClockForPhis(fr *Frame, h *ssa.BasicBlock) {
 		fg.assume(Le(r, c))
 	}
 	fg.allocs = []*Term{c}
+}
+
+
+// advanceClock introduces a fresh clock value not below the current one.
+func (fg *FnGen) advanceClock() *Term {
+	if fg.noDefs {
+		return fg.currentClock()
+	}
+	c := fg.freshConst("clock", SInt)
+	fg.assume(Ge(c, fg.currentClock()))
+	fg.allocs = []*Term{c}
+	return c
+}
+
+func (fg *FnGen) currentClock() *Term {
+	if len(fg.allocs) > 0 {
+		return fg.allocs[0]
+	}
+	return fg.refLimit()
 }
